@@ -133,6 +133,18 @@ Definition out_kind (o : out val) : string :=
 
 Definition root_node (u : string * ty) : node := parse_ast_decl (pkg_of (fst u)) (imp_of (fst u)) (fst u) (snd u).
 
+(* the two lines of one call *)
+Definition line_pair (id uname : string) (n : node) (v : val) (path : list string) (ptag extra : string)
+  (ptr : bool) (s : src) (buf : bool) : list string :=
+  let o := set_method n v path s buf in
+  let tags := ptag ++ "," ++ path_class n v path (aval_of s) ++ dst_tag n v path ++ ",src-" ++ src_kind s ++
+              (if buf then ",buf" else ",nobuf") ++ "," ++ out_kind o ++ extra in
+  let args := path_text path ++ ";" ++ (if buf then "1" else "0") ++ ";" ++ src_text ptr s ++ ";" ++ pr_val true v in
+  [ id ++ ".s" ++ tab ++ "set," ++ tags ++ tab ++ uname ++ ";p;set;" ++ args ++ tab ++ pr_set_n n o ++ tab ++
+    match set_demand n v path (aval_of s) with Some w => "e=nil;obj=" ++ pr_obs (GenC08.u8fix n w) | None => "*" end;
+    id ++ ".f" ++ tab ++ "frame," ++ tags ++ tab ++ uname ++ ";p;setframe;" ++ args ++ tab ++ pr_frame n path v o ++ tab ++
+    "frame=1" ].
+
 Definition case_lines (ui : nat) (u : string * ty) : list string :=
   let n := root_node u in
   flat_map (fun iv : nat * val =>
@@ -141,19 +153,176 @@ Definition case_lines (ui : nat) (u : string * ty) : list string :=
       let '(pi, (path, ptag)) := ipt in
       flat_map (fun ic : nat * (bool * src * bool) =>
         let '(ci, (ptr, s, buf)) := ic in
-        let o := set_method n v path s buf in
         let id := fst u ++ "." ++ nat_to_string vi ++ "." ++ nat_to_string pi ++ "." ++ nat_to_string ci in
-        let tags := ptag ++ "," ++ path_class n v path (aval_of s) ++ dst_tag n v path ++ ",src-" ++ src_kind s ++
-                    (if buf then ",buf" else ",nobuf") ++ "," ++ out_kind o in
-        let args := path_text path ++ ";" ++ (if buf then "1" else "0") ++ ";" ++ src_text ptr s ++ ";" ++ pr_val true v in
-        [ id ++ ".s" ++ tab ++ "set," ++ tags ++ tab ++ fst u ++ ";p;set;" ++ args ++ tab ++ pr_set_n n o ++ tab ++
-          match set_demand n v path (aval_of s) with Some w => "e=nil;obj=" ++ pr_obs (GenC08.u8fix n w) | None => "*" end;
-          id ++ ".f" ++ tab ++ "frame," ++ tags ++ tab ++ fst u ++ ";p;setframe;" ++ args ++ tab ++ pr_frame n path v o ++ tab ++
-          "frame=1" ])
+        line_pair id (fst u) n v path ptag "" ptr s buf)
       (let ps := picks n v path (ui + vi * 7 + pi * 3) in combine (seqn (List.length ps)) ps))
     (let ps := paths n v in combine (seqn (List.length ps)) ps))
   (combine (seqn (List.length (variants n))) (variants n)).
 
+(* ---------- boundary sources ----------
+   For every leaf kind: the assigned value given as decimal TEXT (string, *string, []byte, *[]byte)
+   spelling the least and the greatest value of the element's kind and of the 64-bit kinds the
+   text is parsed into, their neighbours outside the range, the same with leading zeros and an
+   explicit sign, -0, +5, malformed spellings; and typed integer sources of every width holding
+   the least / greatest value of THEIR kind (conversion by wrapping).  For float elements the
+   greatest finite float32 / float64 and the rounding boundaries to infinity (the exact halfway
+   point and the double rounding through float64 for float32), the least subnormals and the
+   rounding boundaries to zero, integers beyond 2^24 and 2^53.
+   The sweep is bounded: one pass over the list per leaf kind, spread over the places (struct
+   fields, slice elements, map values, pointer leaves) where an element of that kind occurs: in
+   this stream with one of the four text forms per text (by rotation), in the stream c03b
+   (Gen/GenC03b.v: own small units with an element of every integer and float kind) with two per
+   text in the quick tier (all four forms on every kind, over the texts) and all four per text in the
+   thorough tier. *)
+Definition dedup_str (l : list string) : list string :=
+  fold_left (fun acc x => if existsb (String.eqb x) acc then acc else (acc ++ [x])%list) l [].
+
+Definition zpad (z : Z) : string := if (z <? 0)%Z then "-00" ++ Z_to_string (- z) else "00" ++ Z_to_string z.
+
+Definition around (k : ikind) : list string :=
+  List.app (map Z_to_string [kmin k; kmax k; kmin k - 1; kmax k + 1; kmin k + 1; kmax k - 1]%Z)
+           [zpad (kmin k); zpad (kmax k); "+" ++ Z_to_string (kmax k)].
+
+Definition nl : string := String (ascii_of_nat 10) "".
+Definition odd_texts : list string := ["-0"; "+5"; "007"; "+0"; "-"; "+"; "5-"; "--5"; "+-5"; " 5"; String "5" nl].
+
+Definition int_texts (i : ikind) : list string :=
+  dedup_str (around i ++ around KInt64 ++ around KUint64 ++ odd_texts)%list.
+
+(* the greatest finite float32, as an integer; the halfway point to 2^128 is f32max + 2^103.  (The
+   greatest float64 and its halfway point to 2^1024 are spelled with 19 digits: 309-digit texts
+   cost too much in the extracted reader.) *)
+Definition f32max : Z := ((2 ^ 24 - 1) * 2 ^ 104)%Z.
+
+Definition float_texts : list string :=
+  List.app
+   (map Z_to_string
+     [f32max; (- f32max); f32max + 2 ^ 103 - 2 ^ 75; f32max + 2 ^ 103 - 1; f32max + 2 ^ 103; (- (f32max + 2 ^ 103)); 2 ^ 128;
+      2 ^ 24 + 1; 2 ^ 24 + 3; 2 ^ 53 + 1; 2 ^ 53 + 3; kmax KInt64; kmin KInt64; kmax KUint64]%Z)
+   [ "3.4028235e38"; "3.4028236e38"; "-3.4028236E+38"; "1e39";
+     "1.7976931348623157e308"; "-1.7976931348623157e308"; "1.797693134862315807e308"; "1.797693134862315808e308";
+     "-1.797693134862315808e308"; "1.7976931348623159e308"; "1e309"; "-1e309"; "1e400"; "1e999";
+     "5e-324"; "3e-324"; "2e-324"; "-2e-324"; "1e-400"; "2.2250738585072014e-308"; "2.2250738585072011e-308";
+     "1e-45"; "8e-46"; "7e-46"; "-7e-46"; "1.17549435e-38";
+     "-0"; "+5"; "007"; "-0.0"; "+0"; ".5"; "5."; "-.5e1"; "1E2"; "0e0"; "00.50"; "1e+02"; "1e"; "e5"; "-"; "+"; "."; "1.5.2";
+     "Inf"; "NaN"; "0x10"; "1_0"; " 5" ].
+
+Definition generic_texts : list string := int_texts KInt64.
+
+(* the least (signed kinds) and the greatest value of every integer kind *)
+Definition typed_srcs : list src :=
+  flat_map (fun k => ((if is_signed k then [SrcInt k (kmin k)] else []) ++ [SrcInt k (kmax k)])%list) all_ikinds.
+
+(* a text as string, *string, []byte, *[]byte (buffered and not, alternating).  [forms] = 4: all four;
+   2: a string form and a bytes form, one of them behind a pointer (which one alternates);
+   otherwise one form per text, by rotation *)
+Definition text_picks (forms : nat) (ts : list string) : list (bool * src * bool) :=
+  flat_map (fun it : nat * string =>
+    let '(ti, t) := it in
+    let form (f : nat) : bool * src * bool :=
+      (Nat.odd f, (if Nat.ltb f 2 then SrcStr t else SrcBytes t), Nat.odd (ti / 4 + f)) in
+    match forms with
+    | 4%nat => map form [0; 1; 2; 3]%nat
+    | 2%nat => if Nat.even ti then [form 0%nat; form 3%nat] else [form 1%nat; form 2%nat]
+    | _ => [form (Nat.modulo ti 4)]
+    end)
+  (combine (seqn (List.length ts)) ts).
+
+Definition typed_picks : list (bool * src * bool) :=
+  map (fun it : nat * src => (Nat.odd (fst it), snd it, Nat.odd (fst it / 2)))
+      (combine (seqn (List.length typed_srcs)) typed_srcs).
+
+(* [forms]: how many of the four forms every text assigned into a numeric element takes *)
+Definition bnd_picks (forms : nat) (en : node) : list (bool * src * bool) :=
+  ((if is_bytes_node en then text_picks 1 generic_texts else
+    match node_skind en with
+    | Some (SInt i) => text_picks forms (int_texts i)
+    | Some SByte => text_picks forms (int_texts KUint8)
+    | Some SF32 | Some SF64 => text_picks forms float_texts
+    | _ => text_picks 1 generic_texts
+    end) ++ typed_picks)%list.
+
+(* a place where a leaf element that can be stored into occurs: unit, root node, object, numbers of
+   the value variant and of the path, path and its tag, node and content of the element, and
+   whether it is an element of a []uint8 slice *)
+Record site := mk_site { s_unit : string; s_root : node; s_val : val; s_vi : nat; s_pi : nat;
+                         s_path : list string; s_tag : string; s_en : node; s_x : val; s_u8 : bool }.
+
+(* is the element at the path an element of a slice of uint8 that is not a []byte node?  Go cannot
+   tell *[]uint8 from *[]byte: there a *[]byte source is a pointer to the container itself (the
+   value.( *T) replacement branch, outside the modelled domain) *)
+Definition in_u8_slice (n : node) (v : val) (path : list string) : bool :=
+  match nav n v (removelast path) with
+  | NElem pn _ =>
+    match n_typ pn, n_slct pn with
+    | typeSlice, Some en => negb (is_bytes_node pn) && GenC08.is_u8_elem en
+    | _, _ => false
+    end
+  | _ => false
+  end.
+
+Definition sites_of (maxvar : nat) (u : string * ty) : list site :=
+  let n := root_node u in
+  let vs := variants n in
+  flat_map (fun iv : nat * val =>
+    let '(vi, v) := iv in
+    flat_map (fun ipt : nat * tagged =>
+      let '(pi, (path, ptag)) := ipt in
+      match path, nav n v path with
+      | _ :: _, NElem en ev =>
+        if is_leaf_node en then
+          match (if n_ptr en then match ev with VPtr (Some x) => Some x | _ => None end else Some ev) with
+          | Some x => [mk_site (fst u) n v vi pi path ptag en x (in_u8_slice n v path)]
+          | None => []
+          end
+        else []
+      | _, _ => []
+      end)
+    (let ps := paths n v in combine (seqn (List.length ps)) ps))
+  (take maxvar (combine (seqn (List.length vs)) vs)).
+
+Definition bnd_class (en : node) : string := if is_bytes_node en then "bytes" else n_typu en.
+
+(* would a store of the converted value be seen there?  (the element does not hold it already) *)
+Definition visible (st : site) (p : bool * src * bool) : bool :=
+  match conv (s_en st) (aval_of (snd (fst p))) with
+  | Some y => negb (val_eqb y (s_x st))
+  | None => true
+  end.
+
+Definition rot {A} (k : nat) (l : list A) : list A := (skipn k l ++ firstn k l)%list.
+
+(* inside the modelled domain: no *[]byte source where it is a pointer to a container on the path *)
+Definition admissible (st : site) (p : bool * src * bool) : bool :=
+  match p with (true, SrcBytes _, _) => negb (s_u8 st) | _ => true end.
+
+(* the j-th of m assignments goes to the first place from position j * (places / m) on where it is visible *)
+Definition place (sts : list site) (m j : nat) (p : bool * src * bool) : option site :=
+  let n := List.length sts in
+  let r := filter (fun st => admissible st p) (rot (Nat.modulo (j * Nat.max 1 (n / m)) n) sts) in
+  match find (fun st => visible st p) r with Some st => Some st | None => hd_error r end.
+
+Definition bnd_block (forms : nat) (sts : list site) : list string :=
+  let classes := dedup_str (map (fun st => bnd_class (s_en st)) sts) in
+  flat_map (fun c =>
+    let cs := filter (fun st => String.eqb (bnd_class (s_en st)) c) sts in
+    match cs with
+    | [] => []
+    | st0 :: _ =>
+      let ps := bnd_picks forms (s_en st0) in
+      let m := List.length ps in
+      flat_map (fun jp : nat * (bool * src * bool) =>
+        let '(j, (ptr, s, buf)) := jp in
+        match place cs m j (ptr, s, buf) with
+        | Some st =>
+          let id := s_unit st ++ "." ++ nat_to_string (s_vi st) ++ "." ++ nat_to_string (s_pi st) ++ ".b" ++ nat_to_string j in
+          line_pair id (s_unit st) (s_root st) (s_val st) (s_path st) (s_tag st) ",bnd" ptr s buf
+        | None => []
+        end)
+      (combine (seqn m) ps)
+    end) classes.
+
 Definition cases (tier : Z) (seed : Z) : list string :=
   let us := emit_units tier in
-  flat_map (fun iu : nat * (string * ty) => case_lines (fst iu) (snd iu)) (combine (seqn (List.length us)) us).
+  (flat_map (fun iu : nat * (string * ty) => case_lines (fst iu) (snd iu)) (combine (seqn (List.length us)) us) ++
+   bnd_block 1 (flat_map (sites_of 6) us))%list.
